@@ -351,9 +351,9 @@ def main(argv):
     chk = Check(PID, "exploration", RULE, [
         "only crash-/leak- libFuzzer artefacts are findings; timeout/oom/slow-unit artefacts are load noise",
         "UBSan's pointer-overflow sub-check (NULL+0) is disabled, see DESIGN.md Corrections"])
-    nm = a.modules or chk.pick(24, 300)
-    nv = a.values or chk.pick(60, 200)
-    fuzz_secs = chk.pick(25, 600)
+    nm = a.modules or chk.pick(24, 200)
+    nv = a.values or chk.pick(60, 150)
+    fuzz_secs = chk.pick(25, 420)
     fuzz_mods = chk.pick(12, 16)
     build.warm(("asan", "fuzz"))
     runner.regression_and_probes(chk, replay_any)
